@@ -594,7 +594,7 @@ class ScanTrAccessors(Contract):
 
 class _CondBase(Contract):
     def replay(self, case, clause, model, path):
-        return battery_replay("cond_update", "cond_dist_branches", "cond_mixed_dtypes")
+        return battery_replay("cond_update", "cond_dist_branches", "cond_mixed_dtypes", "cond_mixture_indicator")
 
     cases = ["args_only", "with_kwargs"]
 
@@ -745,15 +745,25 @@ class CondUpdate(_CondBase):
 class CondRegenerate(_CondBase):
     """G5 for Cond for moves that do not switch the branch; total (never raises)."""
 
-    cases = ["both_discard:args_only", "both_discard:with_kwargs", "none_discard:args_only", "either_discard:args_only", "none_discard:args_only:sel=none", "both_discard:args_only:sel=all"]
+    cases = ["both_discard:args_only", "both_discard:with_kwargs", "none_discard:args_only", "either_discard:args_only", "none_discard:args_only:sel=none", "both_discard:args_only:sel=all",
+             "none_discard:args_only:sel=none:branch_switch(mixture_indicator_move)"]
 
     def call(self, case):
         self.mk(case)
         kind = {"both": "value", "none": "none", "either": "either"}[case.split("_")[0]]
         self.g1.discard_kind = self.g2.discard_kind = kind
         tr = self.old_trace()
-        engine().assume(self.check0.e == self.check.e)  # the claim excludes branch-switching moves
         self.s = mk_selection(case)
+        if "branch_switch" in case:
+            # C09: "a selected choice that decides which branch of a Cond is taken when that Cond's own choices are all
+            # observed (the mixture-indicator move)": the arguments (the condition) change, NOTHING inside the Cond is
+            # selected.  G5 of the callees for the empty selection: choices kept, no prior term
+            engine().assume(self.check0.e != self.check.e)
+            se = sel_id(self.s)
+            for g, x, k in ((self.g1, self.x1.e, 1), (self.g2, self.x2.e, 2)):
+                engine().assume(z3.And(g.RegX(self.a, x, se, z3.IntVal(k)) == x, g.P(self.a, x, se) == 0, g.P(self.aold, x, se) == 0))
+        else:
+            engine().assume(self.check0.e == self.check.e)  # C04's weight claim excludes branch-switching moves
         return self.real(self.fn, self.cd, tr, self.s, *self.args, **self.kwargs)
 
     def ensures(self, case, path):
@@ -767,6 +777,12 @@ class CondRegenerate(_CondBase):
         yield from self.condtr_ok(tr, x1n, x2n)
         mh1 = (g1.D(a, x1n) - g1.D(ao, self.x1.e)) - (g1.P(a, x1n, se) - g1.P(ao, self.x1.e, se))
         mh2 = (g2.D(a, x2n) - g2.D(ao, self.x2.e)) - (g2.P(a, x2n, se) - g2.P(ao, self.x2.e, se))
+        if "branch_switch" in case:
+            # nothing selected: the MH weight is the change of the joint density of the VISIBLE choices
+            new_d = z3.If(self.check.e, g1.D(a, self.x1.e), g2.D(a, self.x2.e))
+            old_d = z3.If(self.check0.e, g1.D(ao, self.x1.e), g2.D(ao, self.x2.e))
+            yield "weight_is_density_of_the_newly_visible_branch_minus_density_of_the_previously_visible_branch", same(w, Sym(new_d - old_d))
+            return
         yield "weight_is_MH_weight_of_taken_branch", same(w, Sym(z3.If(self.check.e, mh1, mh2)))
         if case.startswith("both"):
             yield "discard_is_old_visible_values", same(d, Sym(z3.If(self.check.e, g1.RegD(self.x1.e, se), g2.RegD(self.x2.e, se))))
